@@ -41,6 +41,7 @@ func main() {
 		opts := &vc.Options{RepoDir: *repo, VerifDir: *verif, Tier: *tier, Seed: seed, Scratch: scratch, KeepSMT: *keep, Verbose: *verbose, OnlyFn: *only}
 		if len(overlays) > 0 {
 			opts.Overlay = map[string][]byte{}
+			opts.OverlayFiles = map[string]string{}
 			for _, o := range overlays {
 				var a, b string
 				for i := 0; i < len(o); i++ {
@@ -55,6 +56,7 @@ func main() {
 					os.Exit(2)
 				}
 				opts.Overlay[a] = data
+				opts.OverlayFiles[a] = b
 			}
 		}
 		rep, code := vc.RunCheck(id, opts)
